@@ -5,7 +5,7 @@ from lib import E, guarded
 RULE = ("correspondence: all 256 table entries, all 256 byte reversals (exhaustive), per-byte register "
         "update from boundary + random (register, byte) pairs, calculate_for on byte strings of length "
         "0..4096 in both byte orders, plus messages crafted so that the running register passes through 0x0000, 0xFFFF and other boundary values after k bytes (every k <= 160 and block-size multiples up to 4094); search: implementation vs the extracted X-25 reference and the "
-        "residue 0xF0B8.  non-trivial = distinct inputs that produced a value")
+        "residue 0xF0B8, on fresh objects, on one shared object in mixed call orders, and again after further calculator objects (another instance, a subclass with another polynomial constant) were created and used.  non-trivial = distinct inputs that produced a value")
 ASSUMPTIONS = ["the 2^24 (register, byte) update space is covered in the proof by 2^16 sweeps + one algebraic "
                "lemma, and on the Python side by sampling (thorough: 2 000 000 pairs)"]
 
@@ -139,7 +139,39 @@ def run(ctx):
         if got != want:
             ctx.fail("fcs_depends_on_earlier_calls", {"msg": msgs[i].hex(), "lsb_first": lf, "shared_object": True}, want.hex(), got.hex() if isinstance(got, bytes) else got)
             break
+    # other calculator objects - further instances, a subclass with another polynomial constant - do not disturb the X-25
+    # check values (the table is a class attribute shared by every instance). Last, because a failure poisons the process.
+    guarded(disturb)
+    calculators = [("earlier object", shared)] + module_level_calculators()
+    for i in list(range(0, len(msgs), 5))[:200]:
+        for name, obj in calculators:
+            o = guarded(lambda: obj.calculate_for(msgs[i]))
+            got = bytes(o.value) if o.ok and isinstance(o.value, (bytes, bytearray)) else repr(o)
+            ctx.tried("fcs_after_other_instances", key=(i, name))
+            if got != spec[i]:
+                ctx.fail("fcs_changed_by_other_calculator_objects", {"msg": msgs[i].hex(), "after_other_instances": True, "calculator": name},
+                         spec[i].hex(), got.hex() if isinstance(got, bytes) else got)
+                break
+        else:
+            continue
+        break
     ctx.sample({"kind": "search", "msg": msgs[9].hex()[:80], "x25_fcs": spec[9].hex()})
+
+
+def disturb():
+    """create and use further calculator objects: a plain one and a subclass configured for another polynomial"""
+    from dlms_cosem import crc
+
+    class OtherPolynomial(crc.CRCCCITT):
+        crc_ccitt_constant = 0x8005
+    crc.CRCCCITT().calculate_for(b"abc")
+    o = OtherPolynomial()          # the last object created is the foreign one (a further plain instance could hide the effect)
+    o.calculate_for(b"abc")
+
+
+def module_level_calculators():
+    from dlms_cosem.hdlc import frames
+    return [(n, getattr(frames, n)) for n in ("FCS", "HCS") if hasattr(getattr(frames, n, None), "calculate_for")]
 
 
 def replay(ctx, rp):
@@ -150,6 +182,15 @@ def replay(ctx, rp):
     app = msg + (bytes(o.value) if o.ok else b"")
     res = lib.run_model([("spec_x25_reg", app)])[0]
     check_msg(ctx, msg, spec, res)
+    if rp["case"].get("after_other_instances"):
+        earlier = crc.CRCCCITT()
+        guarded(disturb)
+        for name, obj in [("earlier object", earlier)] + module_level_calculators():
+            o = guarded(lambda: obj.calculate_for(msg))
+            got = bytes(o.value) if o.ok else None
+            if got != spec:
+                print(name, "after other calculator objects were created:", got.hex() if got else got, "expected", spec.hex())
+                return True
     if rp["case"].get("shared_object"):
         shared = crc.CRCCCITT()
         for lf in (True, False, False, True):
